@@ -9,7 +9,7 @@ import shutil
 import time
 
 from . import common as C
-from . import gen, l2
+from . import advcorpus, gen, l2
 
 SIZES = {"quick": dict(npkgs=14, per_pkg=5, typecheck=10**6),
          "thorough": dict(npkgs=120, per_pkg=8, typecheck=10**6)}
@@ -69,7 +69,7 @@ def run(tools, seed, tier):
             cases, stats = gen.generate(seed, root, sz["npkgs"], sz["per_pkg"])
             for c in cases:
                 c.setdefault("tags", []).append("random")
-            cases = gen.shape_cases(root) + repo_corpus_cases(tools) + cases
+            cases = gen.shape_cases(root) + advcorpus.write_all(root, gen.write) + repo_corpus_cases(tools) + cases
             byid = {c["id"]: c for c in cases}
             obs = l2.run_impl(tools, cases, root)
             t_impl = time.time() - t0
@@ -90,7 +90,7 @@ def run(tools, seed, tier):
                 fx = json.loads(l)
                 facts[fx["id"]] = fx
             t_facts = time.time() - t0
-            verdicts, skipped, errors = l2.evaluate(obs, "l2")
+            verdicts, skipped, errors = l2.evaluate(obs, "l2", facts)
             t_coq = time.time() - t0
             # checkers on the lifted programs
             items = []
